@@ -109,6 +109,16 @@ class SymSpec(object):
         r.buf.tags["func"] = (f, r.buf.fn)
         return r
 
+    def fresh_arraynd(self, name, kind, shape):
+        elem = {"i": "int", "I": "int", "f": "real", "b": "bool", "O": "str"}[kind]
+        kind = "i" if kind == "I" else kind
+        srt = {"int": z3.IntSort(), "real": z3.RealSort(), "bool": z3.BoolSort(), "str": z3.IntSort()}[elem]
+        if not shape:
+            c = z3.Const(name, srt)
+            return symnp.ndarray.from_fn(lambda: c, (), kind, elem, name=name)
+        f = z3.Function(name, *([z3.IntSort()] * len(shape) + [srt]))
+        return symnp.ndarray.from_fn(lambda *i: f(*[zint(k) for k in i]), tuple(shape), kind, elem, name=name)
+
     def tag(self, arr, key, value):
         arr.buf.tags[key] = value
 
